@@ -449,6 +449,8 @@ def np_reference(o, types, vals, params):
     return np.asarray(r), cls
 
 
+CPP_BOOL_TYPE = ("equal", "not_equal", "less", "less_equal", "greater", "greater_equal", "logical_and", "logical_or", "logical_not",   # (logical_xor is bool ^ bool = int in C++: not listed)
+                 "isfinite", "isinf", "isnan", "signbit")
 CPP_OPERATOR_TYPE = ("add", "subtract", "multiply", "bitwise_and", "bitwise_or", "bitwise_xor", "left_shift", "right_shift")
 
 
@@ -559,6 +561,8 @@ def oracle(ctx, cr):
         if rtag != want:
             ctx.violation("%s:%s:scalar_result_type" % (op, form), "%s: the scalar operation on (%s) yields %s, C++ %s gives %s" % (
                 op, ",".join(types), rtag, "shift (promoted left operand)" if o["w"] == "left" else "usual arithmetic conversions", want), det)
+    if o["name"] in CPP_BOOL_TYPE and not o["outer"] and rtag != "b1":
+        ctx.violation("%s:%s:scalar_result_type" % (op, form), "%s: the scalar operation on (%s) yields %s, a comparison / logical operation yields bool" % (op, ",".join(types), rtag), det)
     if got["tag"] != rtag:
         ctx.violation("%s:%s:type" % (op, form), "%s: element type of the view is %s, the scalar operation yields %s" % (op, got["tag"], rtag), det)
     if atag != rtag:
